@@ -25,6 +25,7 @@ type C19Step struct {
 	Field string `json:"field,omitempty"` // field the mutation applies to
 	Raw   string `json:"raw,omitempty"`   // raw body for nonjson
 	Alt   int    `json:"alt,omitempty"`   // variant selector (replacement value)
+	Query string `json:"query,omitempty"` // query string (routes that read paging parameters from the URL)
 }
 
 type c19Route struct {
@@ -220,6 +221,14 @@ func genC19Step(r *rand.Rand, routes []string) C19Step {
 	rt := c19Routes[st.Route]
 	if rt.body == nil {
 		st.Mut = "none"
+		if st.Route == "export" && r.Intn(2) == 0 {
+			// paging parameters come from the URL: huge, negative, non-numeric ("huge or negative numbers" of the quantifier)
+			vals := []string{"0", "1", "2", "-1", "100000", "9223372036854775807", "4611686018427387904", "18446744073709551616", "abc", "1e9", ""}
+			st.Query = "limit=" + pick(r, vals) + "&offset=" + pick(r, vals)
+			if r.Intn(2) == 0 {
+				st.Name = "main"
+			}
+		}
 		return st
 	}
 	fields := sortedKeys(rt.body("x"))
@@ -292,6 +301,9 @@ func runC19(w *World, tr *Trace) {
 			}
 			raw, must4xx, why := st.buildBody(rt)
 			path := rt.path(st.Name)
+			if st.Query != "" {
+				path += "?" + st.Query
+			}
 			before := publicReadout(w.E, u)
 			var rec *httptest.ResponseRecorder
 			func() {
